@@ -54,8 +54,8 @@ CLAIMS = {
          "All strings of length <= 3 over a 19-rune escape-relevant alphabet (+ 12 extra runes at length <= 2) in 7 positions, 41 numbers x 8 wrappers, typed nulls, depth-2 containers, a 29-key alphabet (keywords, non-identifiers) singly / in pairs / triples, label lists through NewBlock / AppendNewBlock / SetLabels read back three ways, and all traversals of <= 2-3 steps over 45 steps: generated source must parse, evaluate to the original after conversion to its type, and read back the same traversal steps and labels.",
          "Trusted: go-cty conversion/equality. One recorded finding: Block.Labels() of a constructed label '$${'.",
          "DESIGN.md section 4 C11"),
- 'C12': ("explicit-state search over writer-API operation sequences from 9 initial files (incl. caller-side slice mutations): all histories up to depth 3 without state merging, breadth-first search with heap-isomorphism state merging beyond (depth 5 quick / 7 thorough over a 21-operation sub-alphabet, depth 5 over the core alphabet in thorough); every history / transition executed on fresh real hclwrite objects and compared with a map/list reference model",
-         "64 (thorough 117) operations (SetAttributeValue/Raw/Traversal, Rename/RemoveAttribute, AppendNewBlock, AppendBlock incl. re-appending a removed block, RemoveBlock incl. a foreign block, SetType, SetLabels, AppendNewline, AppendUnstructuredTokens, caller-side overwrite/refill of handed-over token slices) on the root body and nested bodies, from empty / generated / parsed-with-comments / no-final-newline files: every sequence of length <= 3 replayed from scratch; deeper, a merged breadth-first search whose state key is the canonical form (up to address values, all aliasing included) of the private object graph of the real file, the caller's values, the complete model state and the model-to-real block binding: every transition is executed and checked for panics and documented return values, every new state gets the complete oracle. After the operations: no panic, Bytes() parses, parsed structure equals the model, read accessors agree, untouched items keep their tokens and comments, comments of the initial file survive unless their item was removed. Evidence reports states, transitions, traces and per-level frontier / transitions / new states of the merged search.",
+ 'C12': ("explicit-state search over writer-API operation sequences from 10 initial files (incl. caller-side slice mutations): all histories up to depth 3 without state merging, breadth-first search with heap-isomorphism state merging beyond (depth 5 quick / 7 thorough over a 21-operation sub-alphabet, depth 5 over the core alphabet in thorough); every history / transition executed on fresh real hclwrite objects and compared with a map/list reference model",
+         "65 (thorough 118) operations (SetAttributeValue/Raw/Traversal, Rename/RemoveAttribute, AppendNewBlock, AppendBlock incl. re-appending a removed block, RemoveBlock incl. a foreign block, SetType, SetLabels, AppendNewline, AppendUnstructuredTokens, caller-side overwrite/refill of handed-over token slices) on the root body and nested bodies, from empty / generated / parsed-with-comments / no-final-newline files: every sequence of length <= 3 replayed from scratch; deeper, a merged breadth-first search whose state key is the canonical form (up to address values, all aliasing included) of the private object graph of the real file, the caller's values, the complete model state and the model-to-real block binding: every transition is executed and checked for panics and documented return values, every new state gets the complete oracle. After the operations: no panic, Bytes() parses, parsed structure equals the model, read accessors agree, untouched items keep their tokens and comments, comments of the initial file survive unless their item was removed. Evidence reports states, transitions, traces and per-level frontier / transitions / new states of the merged search.",
          "The reference model (ref/refwriter) never imports hclwrite. Merging assumes hclwrite does not depend on address values, map iteration order or slice elements beyond len. One recorded finding: appending into a one-line block. Return values of edit operations that the documentation does not specify are not asserted.",
          "DESIGN.md section 4 C12, section 8 (as built), Appendix D"),
  'C14': ("bounded exhaustive enumeration of byte strings and single-byte edits through every scanning mode, RangeScanner and the JSON scanner, against a reference position counter; generated configurations with recorded construct spans for range fidelity",
